@@ -206,7 +206,10 @@ def _flag_writes(ctx, R, body):
     return out
 
 
-def r1_3(ctx, R):
+def r1_3(ctx, R, parts=("who", "clear", "behind")):
+    """parts: 'who' = who may lock/clear + clear only after a successful dequeue (never while the node is queued);
+    'clear' = the dequeued slot's flag IS cleared before poll / next dequeue / return (liveness);
+    'behind' = child polls only behind a successful dequeue."""
     ctx.rule("R1.3", "flag cleared between dequeue and child poll: the flag is written false only in POP (after a "
                      "successful dequeue) or in a helper called only by DRAIN; on every path from a successful dequeue the "
                      "flag of the dequeued slot is cleared before the child poll, before the next dequeue and before "
@@ -265,6 +268,8 @@ def r1_3(ctx, R):
         polls = R.child_poll_sites(d)
         for cbb, ct, cfn in polls:
             n += 1
+            if "behind" not in parts:
+                continue
             ok = False
             for pbb, pt, pfn in pops:
                 dest = place_str(pt["dest"])
@@ -273,7 +278,7 @@ def r1_3(ctx, R):
                     ok = True
             ctx.ob("R1.3", d, "child-poll-behind-pop-ready@%s" % _site_label(d, cbb), ok, d.loc(cbb))
         # clear obligation per dequeue site
-        for pbb, pt, pfn in pops:
+        for pbb, pt, pfn in (pops if "clear" in parts else []):
             dest = place_str(pt["dest"])
             ready_variants = _payload_variants(ctx, pt["dest"]["ty"])
             if pop_clears:
@@ -294,6 +299,13 @@ def r1_3(ctx, R):
             ok = bool(ents) and bool(clear_sites) and all(must_pass_flags(d, dfl, e, stops, clear_sites) for e in ents)
             ctx.ob("R1.3", d, "dequeued-slot-flag-cleared@%s" % _site_label(d, pbb), ok, d.loc(pbb),
                    "POP does not clear; clear-helper calls on the dequeued index: %s; must precede child poll / next dequeue / return on every path" % [d.loc(c) for c in clear_sites])
+        if "who" in parts:
+            # a clear helper may only be applied to an index that was just dequeued (never to a node still in the queue)
+            for h in helpers:
+                for hbb, ht, hfn in R.calls_to_body(d, h):
+                    idx = dfl.operand_expr(ht["args"][-1])
+                    from_pop = idx[0] == "proj" and idx[1][0] == "call" and idx[1][1] in {p.path for p in R.pop_fns}
+                    ctx.ob("R1.3", d, "clear-helper-only-on-dequeued-index@%s" % _site_label(d, hbb), from_pop, d.loc(hbb), expr_str(idx))
     ctx.floor("R1.3", "child-poll-sites", n, 1)
 
 
@@ -616,6 +628,38 @@ def r1_7(ctx, R):
                                                     wrap = True
         ctx.ob("R1.7", b, "loop-head-wraps-cursor", wrap, b.loc(ibb))
     ctx.floor("R1.7", "group-loop-functions", len(fns), 2)
+    # (d) every iteration makes progress, so that `len` iterations really visit every group
+    from groups import cursor_events
+    for b in fns:
+        r = cursor_events(ctx, R, b)
+        if r is None:
+            ctx.ob("R1.7", b, "iteration-progress-model", False, d_loc(b), "cannot identify groups[cursor] poll")
+            continue
+        cur_field, eps = r
+        bad = {"Pending": [], "None": []}
+        seen = {"Pending": 0, "None": 0}
+        for path, ev in eps:
+            for i, e in enumerate(ev):
+                if e[0] != "P" or e[1] not in ("Pending", "None"):
+                    continue
+                seen[e[1]] += 1
+                progressed = False
+                for f in ev[i + 1:]:
+                    if f[0] == "ADV" or (f[0] == "REM" and e[1] == "None"):
+                        progressed = True
+                        break
+                    if f[0] == "RET":
+                        progressed = (e[1] == "None" and f[1] == "None")
+                        break
+                    if f[0] == "P":
+                        break
+                if not progressed:
+                    bad[e[1]].append(path)
+        for outcome in ("Pending", "None"):
+            ctx.ob("R1.7", b, "iteration-after-%s-moves-on" % outcome, not bad[outcome] and seen[outcome] > 0, d_loc(b),
+                   "after an inner %s the cursor is advanced/reset%s before the next inner poll; %d events, %d without progress" % (
+                       outcome, ", or the exhausted group removed, or Ready(None) returned" if outcome == "None" else "", seen[outcome], len(bad[outcome])),
+                   path=bad[outcome][0] if bad[outcome] else None)
 
 
 def poll_bodies(ctx):
